@@ -764,7 +764,7 @@ Lemma nonvacuous :
   let r := call nv_interp k_SparseMLPModel "fit" 2 (run nv_interp k_SparseMLPModel nv_history nv_start) in
   snd r = false /\ fst r "W_skip_" <> None /\ fst r "alpha" = Some 7.
 Proof.
-  split; [vm_compute; tauto|]. split; [vm_compute; reflexivity|].
+  split; [unfold table; repeat (first [left; reflexivity | right])|]. split; [vm_compute; reflexivity|].
   split; [intros a Ha _; unfold nv_start, fresh; rewrite Ha; reflexivity|].
   split; [vm_compute; reflexivity|].
   vm_compute. repeat split; discriminate.
